@@ -256,7 +256,11 @@ func runC04(c c04Case) (r pbt.Result) {
 		case atPoint[op.Actor]:
 		case op.Op == "send" && op.Err == nil && frozen.C2SAcceptOnly:
 			// soft mode with the F13 exclusion: the transport took the bytes, the send legitimately succeeded
-		case (op.Op == "send" || op.Op == "recv") && op.Err == nil:
+		case op.Op == "recv" && op.Err == nil:
+			// nothing is delivered after the cancel (frozen transport), so the message had reached the stream before
+			// it: a receive that was queued (e.g. behind the write lock for its first flush) may still hand it out
+			r.Label("blocked_recv_returned_buffered_message")
+		case op.Op == "send" && op.Err == nil:
 			fail("a %s blocked at cancel time returned nil", op.Op)
 			return
 		case op.Op == "recv" && soft && recvInTransport[op.Actor] && pbt.Excluded("F14"):
